@@ -87,6 +87,16 @@ def _scenarios(prop, rng):
                     ops.append({'op': 'tick', 'a': {'n': 1}})
             ops.append({'op': 'cull', 'a': {}})
             out.append((dict(policy=policy, cull=0, limit=300 * 1024, stats=False), ops))
+            # writes that cull lazily: exactly one (or two) freshly expired items AND policy eviction in the same write
+            for cull, per in ((3, 2), (10, 2), (10, 3)):
+                ops = []
+                for i in range(70):
+                    ops.append({'op': 'tick', 'a': {'n': 1}})
+                    ttl = [3] if i % per else []
+                    ops.append({'op': 'set', 'a': {'k': K(i), 'v': 200000 + (40 + 8 * (i % 3)) * 100 + i, 'ttl': ttl, 'tag': 0}})
+                    if i % 5 == 0:
+                        ops.append({'op': 'get', 'a': {'k': K(rng.randrange(i + 1)), 'fx': 0, 'ft': 0, 'mk': 'miss'}})
+                out.append((dict(policy=policy, cull=cull, limit=1000 * 1024, stats=False), ops))
     return out
 
 
